@@ -532,7 +532,10 @@ func ensureHTMLSafeLoginDestination(loginDestination string) string {
 	if err != nil {
 		return profilePath
 	}
-	return parsedLoginDestination.String()
+	// The result is written inside a VALUE="..." attribute of raw
+	// (template.HTML) markup and URL.String() leaves quotes and angle brackets
+	// of the query and opaque parts untouched: escape them.
+	return htmltemplate.HTMLEscapeString(parsedLoginDestination.String())
 
 }
 
